@@ -245,6 +245,54 @@ func c04Main(args []string) int {
 		l.Rep.Close()
 		rep.Kinds = append(rep.Kinds, kr)
 	}
+	// the kinds that need the Ethereum chain driver (second prepared chain, harness/c18eth.go)
+	if *only == "" || strings.HasPrefix(*only, "ETH") || strings.HasPrefix(*only, "ERC20") {
+		nk := len(newC18EthClosed())
+		for ki := 0; ki < nk; ki++ {
+			e := newC18Eth()
+			k := e.kinds()[ki]
+			if *only != "" && *only != k.Name {
+				func() { defer func() { recover() }(); e.w.rep.Close() }()
+				continue
+			}
+			w := e.w
+			l := &lab{W: &World{Users: []Key{w.idKey[1], w.idKey[2], w.idKey[3], w.idKey[4], w.idKey[40], w.idKey[41]}}, Rep: w.rep, Attacker: w.idKey[40]}
+			base := k.Build(e.memo())
+			kr := c04Kind{Kind: k.Name, Base: hx(base)}
+			cb := l.Rep.CheckTx(base)
+			kr.BaseCheck = cb.Code
+			kr.BaseLog = cb.Log
+			muts := l.mutants(k, base)
+			baseRaw := decodeSigned(base).RawBytes()
+			for _, m := range muts {
+				c := l.Rep.CheckTx(m.Tx)
+				kr.Mutants = append(kr.Mutants, c04Mut{Name: m.Name, Class: m.Class, Check: c.Code, Tx: hx(m.Tx),
+					Changed: !bytes.Equal(decodeSigned(m.Tx).RawBytes(), baseRaw)})
+			}
+			wires := wireMutants(base)
+			for _, m := range wires {
+				l.Rep.CheckTx(base)
+				c := l.Rep.CheckTx(m.Tx)
+				kr.Mutants = append(kr.Mutants, c04Mut{Name: m.Name, Class: m.Class, Check: c.Code, Tx: hx(m.Tx), Changed: true})
+			}
+			in := &BlockIn{Absent: map[int]bool{}}
+			l.Rep.BeginBlock(in)
+			for i, m := range muts {
+				res := l.Rep.DeliverTx(m.Tx)
+				kr.Mutants[i].Deliver = res.Code
+			}
+			res := l.Rep.DeliverTx(base)
+			kr.BaseDeliver = res.Code
+			for i, m := range wires {
+				res := l.Rep.DeliverTx(m.Tx)
+				kr.Mutants[len(muts)+i].Deliver = res.Code
+			}
+			l.Rep.EndBlock()
+			l.Rep.Commit()
+			func() { defer func() { recover() }(); l.Rep.Close() }()
+			rep.Kinds = append(rep.Kinds, kr)
+		}
+	}
 	// OLVM transactions authenticate differently (an EIP-155 signature over the embedded Ethereum
 	// transaction, the sender recovered from it must equal the payload's from): same questions
 	if *only == "" || *only == "OLVM" {
